@@ -71,14 +71,15 @@ def value_kind(codec, t):
 
 
 class CodecModel:
-    def __init__(self, cs, ty):
+    def __init__(self, cs, ty, trait_path=CODEC_TRAIT):
+        self.trait_path = trait_path
         self.cs = cs
         self.eng = cs.eng
         self.crate = cs.crate
         self.ty = ty
         self.adt = cs.crate.adts.get(ty)
         self.short = ty.replace("codec::", "")
-        self.bits = cs.crate.const_val("<%s as codec::Codec>::BITS" % ty)
+        self.bits = cs.crate.const_val("<%s as %s>::BITS" % (ty, trait_path))
         self.is_enum = self.adt is not None and self.adt["kind"] == "enum"
         self.derived = None
         self.where = None
@@ -87,8 +88,8 @@ class CodecModel:
         self.problems = []
         self._build_symbols()
 
-    def method(self, name, trait=CODEC_TRAIT):
-        return self.crate.body("<%s as %s>::%s" % (self.ty, trait, name))
+    def method(self, name, trait=None):
+        return self.crate.body("<%s as %s>::%s" % (self.ty, trait or self.trait_path, name))
 
     def sym_name(self, t):
         if self.is_enum:
@@ -168,7 +169,7 @@ class CodecModel:
         self._tables[method] = out
         return out
 
-    def sym_fn(self, method, trait=CODEC_TRAIT):
+    def sym_fn(self, method, trait=None):
         """method: Self -> X evaluated on every symbol."""
         key = (trait, method)
         if key in self._tables:
@@ -216,18 +217,18 @@ class CodecModel:
 class CodecSet:
     current = None
 
-    def __init__(self, facts, eng):
+    def __init__(self, facts, eng, crate=None):
         self.facts = facts
-        self.crate = facts.bio
+        self.crate = crate if crate is not None else facts.bio
         self.eng = eng
         self.by_ty = {}
         CodecSet.current = self
         tys = []
         for im in self.crate.impls:
-            if im["trait"] == CODEC_TRAIT:
+            if im["trait"] == CODEC_TRAIT or (crate is not None and (im["trait"] or "").endswith("::Codec")):
                 tys.append((im["self_ty"], im))
         for ty, im in sorted(tys):
-            m = CodecModel(self, ty)
+            m = CodecModel(self, ty, im["trait"])
             m.derived = bool(im.get("exp")) or bool(im.get("derived"))
             m.impl = im
             self.by_ty[ty] = m
